@@ -180,3 +180,22 @@ Qed.
 Example sc_as_is :
   map snd (crun sc_insts sc_keys [1; 5] cinit sc_script) = [[]; [(0, 0, 0); (0, 1, 1)]; []; [(0, 0, 0)]].
 Proof. vm_compute. reflexivity. Qed.
+
+(* (4) minimal disruption without collision-freeness: three nodes share one slot (as "a"+"120",
+   "a1"+"20", "a12"+"0" do under murmur3 with 150 replicas); the bucket is [1; 2] and the key's inner
+   hash picks index 4 mod 2 = 0; once node 3 joined the bucket is [1; 2; 3] and 4 mod 3 = 1: ADDING
+   node 3 moved the key from node 1 to node 2.  (Replayed on the real code: corpus history
+   Add(a); Add(a1); Add(a12), key85.) *)
+Definition three_way_hash (n i : Z) : Z := if i =? 0 then 7 else n * 1000 + i.
+
+Theorem add_moves_between_others_refuted :
+  exists vh R ops x hp ihp a b,
+    ~ In (nrepr x) (nodes (run vh R ops)) /\
+    get (run vh R ops) hp ihp = GSome a /\
+    get (step vh R (run vh R ops) (OAdd x)) hp ihp = GSome b /\
+    a <> b /\ nrepr a <> nrepr x /\ nrepr b <> nrepr x.
+Proof.
+  exists three_way_hash, 3, [OAdd (mkNode 1 1); OAdd (mkNode 2 2)], (mkNode 3 3), 5, 4, (mkNode 1 1), (mkNode 2 2).
+  vm_compute. repeat split; try reflexivity; try discriminate.
+  intros [H|[H|[]]]; discriminate.
+Qed.
